@@ -10,6 +10,7 @@ for n in $(ls benign); do
   cp -r /repo/. "$D/" && (cd "$D" && git apply /verif/benign/$n/patch.diff) || { echo "$n patch-does-not-apply"; rm -rf "$D"; continue; }
   for id in $(echo $ids | tr ' ' '\n' | sort -u); do
     [ "$id" = "$own" ] && continue
+    grep -q "^$n vs $id exit=0" /tmp/benigncross.done 2>/dev/null && continue   # resume
     VERIF_REPO="$D" ./run.sh "$id" quick > /tmp/benx.$n.$id.log 2>&1; rc=$?
     echo "$n vs $id exit=$rc $(grep -m1 -A1 -E 'VIOLATION|INFRA-ERROR' /tmp/benx.$n.$id.log | tr '\n' ' ' | cut -c1-260)"
   done
